@@ -239,11 +239,15 @@ Proof.
   unfold pyd_get, assoc_d. rewrite assoc_pyd_set. destruct (k' =? k); reflexivity.
 Qed.
 
+(* the translated store condition of Simulation._mem_update is "enable is non-zero" *)
+Lemma mem_update_cond_enabled w : mem_update_cond (w_en w) = enabled w.
+Proof. reflexivity. Qed.
+
 Lemma sim_write_ok dflt d w a :
   pyd_get dflt (sim_mem_update d w) a = arr_write (pyd_get dflt d) w a.
 Proof.
-  unfold sim_mem_update, arr_write, upd. destruct (enabled w); [|reflexivity].
-  apply pyd_get_set.
+  unfold sim_mem_update, arr_write, upd. rewrite mem_update_cond_enabled.
+  destruct (enabled w); [|reflexivity]. apply pyd_get_set.
 Qed.
 
 Definition all_cycles_adm (h : list cycle) : Forall (cyc_adm (fun _ => True) (fun _ => True)) h.
@@ -286,7 +290,10 @@ Proof.
 Qed.
 
 Lemma sim_update_nodup d w : NoDup (map fst d) -> NoDup (map fst (sim_mem_update d w)).
-Proof. unfold sim_mem_update. destruct (enabled w); [apply pyd_set_nodup|auto]. Qed.
+Proof.
+  unfold sim_mem_update. rewrite mem_update_cond_enabled.
+  destruct (enabled w); [apply pyd_set_nodup|auto].
+Qed.
 
 Lemma sim_run_nodup dflt h : forall d, NoDup (map fst d) ->
   NoDup (map fst (snd (sim_mem_run dflt d h))).
@@ -306,7 +313,8 @@ Lemma sim_w_write_ok dflt dw d w a : 0 <= dw -> inrange (w_data w) dw ->
   sanitize (pyd_get dflt (sim_mem_update d w) a) dw
   = arr_write (fun a => sanitize (pyd_get dflt d a) dw) w a.
 Proof.
-  intros Hdw Hr. unfold sim_mem_update, arr_write, upd. destruct (enabled w); [|reflexivity].
+  intros Hdw Hr. unfold sim_mem_update, arr_write, upd. rewrite mem_update_cond_enabled.
+  destruct (enabled w); [|reflexivity].
   rewrite pyd_get_set. destruct (a =? w_addr w); [|reflexivity].
   apply sanitize_id; assumption.
 Qed.
@@ -345,7 +353,8 @@ Lemma fast_apply_ws ws : forall d,
 Proof.
   induction ws as [|w r IH]; intros d; [reflexivity|].
   cbn [fold_left]. rewrite <- IH. unfold fast_mem_ws. cbn [flat_map].
-  rewrite fold_left_app. unfold sim_mem_update. destruct (enabled w); reflexivity.
+  rewrite fold_left_app. unfold sim_mem_update. rewrite mem_update_cond_enabled.
+  destruct (enabled w); reflexivity.
 Qed.
 
 Lemma fast_step_eq_sim dflt d c : fast_mem_step dflt d c = sim_mem_step dflt d c.
@@ -602,7 +611,7 @@ Definition rom_spec (bw : Z) (pad : bool) (data : romdata) (a : Z) : rom_result 
 Theorem rom_read_spec aw bw pad data a : 0 <= bw -> 0 <= a < 2 ^ aw ->
   rom_read aw bw pad data a = rom_spec bw pad data a.
 Proof.
-  intros Hbw Ha. unfold rom_read, rom_spec.
+  intros Hbw Ha. unfold rom_read, rom_spec, rom_addr_guard, rom_value_guard, rom_pad_key, rom_pad_index.
   destruct ((a <? 0) || (a >? 2 ^ aw - 1)) eqn:E; [lia|].
   pose proof (pow2_pos bw Hbw) as Hp.
   destruct data as [l|d|f]; simpl.
@@ -622,7 +631,7 @@ Qed.
 Theorem rom_read_oob aw bw pad data a : a < 0 \/ 2 ^ aw <= a ->
   rom_read aw bw pad data a = RomErr ErrAddr.
 Proof.
-  intros H. unfold rom_read. destruct ((a <? 0) || (a >? 2 ^ aw - 1)) eqn:E; [reflexivity|lia].
+  intros H. unfold rom_read, rom_addr_guard. destruct ((a <? 0) || (a >? 2 ^ aw - 1)) eqn:E; [reflexivity|lia].
 Qed.
 
 (* a successful read is in range and is the datum *)
@@ -633,7 +642,7 @@ Theorem rom_read_ok aw bw pad data a v : 0 <= bw ->
 Proof.
   intros Hbw H.
   assert (Ha : 0 <= a < 2 ^ aw).
-  { unfold rom_read in H. destruct ((a <? 0) || (a >? 2 ^ aw - 1)) eqn:E; [discriminate|lia]. }
+  { unfold rom_read, rom_addr_guard in H. destruct ((a <? 0) || (a >? 2 ^ aw - 1)) eqn:E; [discriminate|lia]. }
   split; [assumption|]. rewrite rom_read_spec in H by assumption. unfold rom_spec in H.
   destruct (rom_data_at data a) as [x|].
   - destruct ((0 <=? x) && (x <? 2 ^ bw)) eqn:E; [|discriminate]. injection H as <-.
@@ -733,7 +742,8 @@ Corollary disabled_write_noop_dict d ws :
   Forall (fun w => w_en w = 0) ws -> fold_left sim_mem_update ws d = d.
 Proof.
   induction ws as [|w r IH]; intros H; simpl; [reflexivity|].
-  inversion H as [|? ? Hw Hr]; subst. unfold sim_mem_update at 2. unfold enabled. rewrite Hw. simpl.
+  inversion H as [|? ? Hw Hr]; subst. unfold sim_mem_update at 2. rewrite mem_update_cond_enabled.
+  unfold enabled. rewrite Hw. simpl.
   apply IH. assumption.
 Qed.
 
@@ -991,3 +1001,13 @@ Theorem chain_insert_no_duplicate_node {V} (c : @chain V) k v :
   length (chain_insert c k v)
   = if existsb (Z.eqb k) (map fst c) then length c else Datatypes.S (length c).
 Proof. exact (chain_insert_length (fun x => x) c k v). Qed.
+
+(* ------------------------------------------------------------------ *)
+(** * Translated fragments (Gen/MemFrag.v) fit together                 *)
+(* MemBlock._build, Simulation._mem_update and the C emitter agree on where address, data
+   and enable sit in the '@' net's args *)
+Theorem port_args_roundtrip w : sim_port (build_args w) = w /\ c_port (build_args w) = w.
+Proof. destruct w as [[a d] e]. split; reflexivity. Qed.
+
+Theorem c_size_positive : (0 < c_size)%nat.
+Proof. unfold c_size, c_size_src. lia. Qed.
